@@ -32,7 +32,7 @@
 From Coq Require Import ZArith NArith Bool List.
 Import ListNotations.
 Require Import FV.Gen.C06 FV.Base.Util FV.Base.F64 FV.Base.PyVal FV.C01.Model FV.C06.Model FV.C06.Lemmas FV.C06.LemmasBuild
-  FV.C06.LemmasMain FV.C06.LemmasValues FV.C06.Refuted.
+  FV.C06.LemmasMain FV.C06.LemmasValues FV.C06.Refuted FV.C06.Startup FV.C06.LemmasStartup.
 
 Theorem C06_source_facts :
   features_from_direct_feature_bases = true /\ fixexport_shape = true /\
@@ -41,7 +41,8 @@ Theorem C06_source_facts :
   property_export_table = true /\ for_export_shapes = true /\ export_accessibles_shape = true /\
   change_path_shape = true /\ read_path_shape = true /\ do_path_shape = true /\ activate_path_shape = true /\
   announce_update_shape = true /\ access_wrappers_use_instance_datatype = true /\ auto_props_after_cfg = true /\
-  interface_classes_limit = 1%nat /\ finish_calls_class_constant = 3%nat.
+  interface_classes_limit = 1%nat /\ finish_calls_class_constant = 3%nat /\
+  description_built_per_call = true /\ startup_order = true /\ register_input_extends_enum = true.
 Proof. repeat split; reflexivity. Qed.
 
 (* lists_module mc e: e is named like mc, the list of its accessible keys equals the list of wire names of the accessibles of
@@ -277,3 +278,151 @@ Print Assumptions C06_emitted_values_converted.
 Print Assumptions C06_interface_and_features.
 Print Assumptions C06_main_unit_substituted.
 Print Assumptions C06_refuted_nan_constant_described.
+
+(* ------------------------------------------------------------------ the started node: the description is current
+   Startup.v models Server._processCfg: create_modules (build), then the start-up call of get_descriptive_data which
+   initialises and describes the exported modules one by one (its result is dropped), then the remaining modules.
+   initModule of a control loop (mixins.HasOutputModule) registers the loop at its output module (HasControlledBy), which
+   replaces the datatype of that module's controlled_by - possibly AFTER the output module was described at start-up.
+   lk ranges over ALL attachment lists (control loop, output module), n over all configurations, ops over all histories.
+
+   C06_description_is_current: in every state the started node reaches, the report is the image of the module objects of
+   THAT state (no memo: describe has no other input, translator fact description_built_per_call), every described
+   parameter is described with datatype, unit, readonly, constant of the live Parameter object behind its name, every
+   described command with the argument / result of the live Command object, and every exported parameter object of the
+   state is described with its present datatype. *)
+Theorem C06_description_is_current : forall n lk s0 E ops,
+  build n = Ok s0 -> well_configured n ->
+  let s := run E (startup lk s0) ops in
+  describe s = map (fun m => (m_name m, describe_mod m)) (filter m_export (s_mods s)) /\
+  (forall m w g v pd, described s m w = Some (DP g v pd) ->
+     exists p, param_at s m w = Some p /\ pd_dt pd = p_dt p /\ pd_unit pd = p_unit p /\
+               pd_readonly pd = p_readonly p /\ pd_constant pd = p_constant p) /\
+  (forall m w g v x r, described s m w = Some (DC g v x r) ->
+     exists md a c, find_mod s m = Some md /\ lookup0 md w = Some a /\ a_body a = AC c /\ c_arg c = x /\ c_res c = r) /\
+  (forall md a p w, In md (s_mods s) -> In a (m_accs md) -> a_body a = AP p -> a_wire a = Some w ->
+     exists g v pd, described s (m_name md) w = Some (DP g v pd) /\ pd_dt pd = p_dt p).
+Proof. exact description_is_current. Qed.
+Print Assumptions C06_description_is_current.
+
+(* two states with the same module objects have the same report, whatever was described before *)
+Theorem C06_description_function_of_modules : forall s1 s2, s_mods s1 = s_mods s2 -> describe s1 = describe s2.
+Proof. exact describe_function_of_modules. Qed.
+Print Assumptions C06_description_function_of_modules.
+
+(* a later change of an accessible is reflected: in ANY state with the invariants of a started node (consistent, distinct
+   wire names), after <md>.register_input(ctrl) the exported controlled_by of md is described with the extended enum, which is
+   the datatype of the live parameter object (reg_par: only the datatype is replaced) *)
+Theorem C06_register_input_reflected : forall s ctrl md a p w,
+  consistent s -> wires_ok s ->
+  In md (s_mods s) -> In a (m_accs md) -> a_attr a = cb_attr -> a_body a = AP p -> a_wire a = Some w ->
+  let s' := register_input s ctrl (m_name md) in
+  exists g v pd, described s' (m_name md) w = Some (DP g v pd) /\ pd_dt pd = extend_dt (p_dt p) ctrl /\
+                 param_at s' (m_name md) w = Some (reg_par ctrl p).
+Proof. exact register_input_reflected. Qed.
+Print Assumptions C06_register_input_reflected.
+
+(* the clauses above for the node as it serves (built, started with any attachments, any history); with lk = [] these are
+   the statements C06_nothing_undescribed, C06_datainfo_same_object, C06_flags_predict, C06_read_described *)
+Theorem C06_started_nothing_undescribed : forall n lk s0 E ops m w,
+  build n = Ok s0 -> well_configured n ->
+  let s := run E (startup lk s0) ops in
+  described s m w = None ->
+  (forall tok, exists r, do_read s m w tok = (s, r, []) /\ refused r) /\
+  (forall j, exists r, do_change E s m w j = (s, r, []) /\ refused r) /\
+  (forall arg, refused (do_do E s m w arg)) /\
+  (exists r, do_activate s (Some (m, Some w)) = (s, r, []) /\ refused r) /\
+  (assoc_str m (describe s) = None -> do_activate s (Some (m, None)) = (s, RpErr RNoMod, [])).
+Proof. exact started_nothing_undescribed. Qed.
+Print Assumptions C06_started_nothing_undescribed.
+
+Theorem C06_started_datainfo_same_object : forall n lk s0 E ops m w,
+  build n = Ok s0 -> well_configured n ->
+  let s := run E (startup lk s0) ops in
+  (forall g v pd j, described s m w = Some (DP g v pd) -> pd_readonly pd = false -> pd_constant pd = None ->
+     exists prev,
+       match verdict E (pd_dt pd) j prev with
+       | Err e => do_change E s m w j = (s, RpErr (RExc e), [])
+       | Ok nv => exists s' us, do_change E s m w j =
+                    (s', reply_of (dt_export (pd_dt pd) nv >>= fun x => Ok (with_qualifiers x)), us)
+       end) /\
+  (forall g v x r arg, described s m w = Some (DC g v x r) ->
+     exists ret, do_do E s m w arg =
+       reply_of (run_cmd E {| c_arg := x; c_res := r; c_ret := ret |} arg >>= fun y => Ok (with_qualifiers y))).
+Proof. exact started_datainfo_same_object. Qed.
+Print Assumptions C06_started_datainfo_same_object.
+
+Theorem C06_started_flags_predict : forall n lk s0 E ops m w g v pd,
+  build n = Ok s0 -> well_configured n ->
+  let s := run E (startup lk s0) ops in
+  described s m w = Some (DP g v pd) ->
+  ((pd_readonly pd = true \/ pd_constant pd <> None) -> forall j, do_change E s m w j = (s, RpErr RReadOnly, [])) /\
+  (pd_readonly pd = false -> pd_constant pd = None -> forall j, snd (fst (do_change E s m w j)) <> RpErr RReadOnly).
+Proof. exact started_flags_predict. Qed.
+Print Assumptions C06_started_flags_predict.
+
+Theorem C06_started_read_described : forall n lk s0 E ops m w g v pd tok,
+  build n = Ok s0 -> well_configured n ->
+  let s := run E (startup lk s0) ops in
+  described s m w = Some (DP g v pd) ->
+  (pd_constant pd = None ->
+     exists p, param_at s m w = Some p /\ p_dt p = pd_dt pd /\
+       match p_hw p with
+       | None => do_read s m w tok = (s, value_reply (pd_dt pd) (p_value p), [])
+       | Some hw =>
+           match dt_call (pd_dt pd) hw with
+           | Ok nv => exists s' us, do_read s m w tok = (s', value_reply (pd_dt pd) nv, us) /\
+                                    Forall (fun u => u_body u = value_body (pd_dt pd) nv) us
+           | Err e => exists s' us, do_read s m w tok = (s', RpErr (RExc e), us) /\ Forall (fun u => u_body u = UE) us
+           end
+       end) /\
+  (forall c, pd_constant pd = Some c -> do_read s m w tok = (s, RpData (with_qualifiers c), [])).
+Proof. exact started_read_described. Qed.
+Print Assumptions C06_started_read_described.
+
+(* every update any operation of the started node emits belongs to a parameter the report (of the state after the operation)
+   describes, and carries the error mark or the export of the cached value BY THE DESCRIBED DATATYPE, which is the datatype of
+   the live parameter object.  (That the cached value was produced by that datatype - C06_emitted_values_converted - is proved
+   for nodes without attachments only: register_input keeps the value converted by the former enum.) *)
+Theorem C06_started_updates_described : forall n lk s0 E ops o,
+  build n = Ok s0 -> well_configured n ->
+  let s := run E (startup lk s0) ops in
+  let s' := fst (fst (step E s o)) in
+  Forall (fun u => exists w g v pd p,
+            u_wire u = Some w /\ described s' (u_mod u) w = Some (DP g v pd) /\ param_at s' (u_mod u) w = Some p /\
+            p_dt p = pd_dt pd /\
+            u_body u = match p_err p with Some _ => UE | None => value_body (pd_dt pd) (p_value p) end)
+         (snd (step E s o)).
+Proof. exact started_updates_described. Qed.
+Print Assumptions C06_started_updates_described.
+
+Theorem C06_started_stable : forall lk s0 E ops, describe (run E (startup lk s0) ops) = describe (startup lk s0).
+Proof. intros. apply stable. Qed.
+Print Assumptions C06_started_stable.
+
+(* non-vacuity: the output module `m` (controlled_by: enum self=0, exported) is configured BEFORE the control loop `bar`
+   attached to it.  The description computed during start-up (dropped by the real code) still shows the enum {self: 0};
+   the node as it serves describes {self: 0, bar: 1}, accepts the driver assignment controlled_by = 1 and emits 1. *)
+Definition enum_self : dtype := TEnum [([115; 101; 108; 102]%N, 0%Z)].
+Definition n_heater_loop : list mcfg :=
+  [mk_mod [mk_par cb_attr enum_self ExTrue None true None (Some (PInt 0))];
+   {| mc_name := s_bar; mc_export := true; mc_group := []; mc_vis := 1; mc_impl := []; mc_mro := []; mc_accs := [];
+      mc_cfg_auto := [] |}].
+Definition lk_demo : links := [(s_bar, s_m)].
+Definition desc_dt (d : option adesc) : option dtype := match d with Some (DP _ _ pd) => Some (pd_dt pd) | _ => None end.
+Definition startup_desc_dt (n : list mcfg) (lk : links) (m w : str) : option dtype :=
+  match assoc_str m (snd (startup_trace lk (state_of n))) with
+  | Some md => desc_dt (assoc_str w (md_accs md))
+  | None => None
+  end.
+Example C06_demo_startup_description_not_final :
+  built n_heater_loop = true /\
+  opt_eqb dtype_eqb (startup_desc_dt n_heater_loop lk_demo s_m cb_attr) (Some enum_self) = true /\
+  opt_eqb dtype_eqb (desc_dt (described (startup lk_demo (state_of n_heater_loop)) s_m cb_attr))
+          (Some (TEnum [([115; 101; 108; 102]%N, 0%Z); (s_bar, 1%Z)])) = true /\
+  (let s1 := all_active (startup lk_demo (state_of n_heater_loop)) in
+   map u_body (upds3 (do_driver_set s1 s_m cb_attr (PInt 1) tok1)) = [UV (PInt 1)]) /\
+  (* without the attachment the same assignment is refused by the datatype *)
+  (let s1 := all_active (startup [] (state_of n_heater_loop)) in
+   map u_body (upds3 (do_driver_set s1 s_m cb_attr (PInt 1) tok1)) = [UE]).
+Proof. repeat split; vm_compute; reflexivity. Qed.
